@@ -47,7 +47,8 @@ mut("c02-crss-E-swap", "core.py", crss["E"], "np.array([3, 2, 1, np.inf])", ["C0
 mut("c02-crss-C-entry", "core.py", crss["C"], "np.array([3, 1, np.inf, 1])", ["C02"])
 mut("c02-exponent-n", "core.py", "    slip_rates[i_min] = ratio_min * np.abs(ratio_min) ** (deformation_exponent - 1)",
     "    slip_rates[i_min] = ratio_min * np.abs(ratio_min) ** (deformation_exponent)", ["C02"])
-mut("c02-historical-j+2", "core.py", "            k = (j + 1) % 3\n", "            k = (j + 2) % 3\n", ["C02"], note="the historical D-Rex indexing bug")
+mut("c02-historical-j+2", "core.py", "            k = (j + 1) % 3\n", "            k = (j + 2) % 3\n", ["C02"], expect="silent",
+    note="the historical D-Rex indexing bug as coded here only re-enumerates the same three antisymmetric pairs: an equivalent mutant")
 mut("c02-schmid-factor2", "core.py", "            deformation_rate[i, j] = 2 * (", "            deformation_rate[i, j] = 1 * (", ["C02"],
     note="G halves, gamma doubles: spin unchanged but the dislocation densities (|beta*gamma|^(p/n)) change")
 mut("c02-spin-half", "core.py", "            - (deformation_rate[s, r] - deformation_rate[r, s]) * slip_rate_softest\n        ) / 2",
@@ -162,7 +163,8 @@ mut("c11-revert-F6", "tensors.py", "    return U @ Vh, U_matrix\n", "    return 
 mut("c11-invariant-sign", "tensors.py", "        - tensor[2, 0] * tensor[0, 2],\n", "        + tensor[2, 0] * tensor[0, 2],\n", ["C11"])
 
 # ---------------------------------------------------------------- C12
-mut("c12-sccs-max-distance", "diagnostics.py", "            if δ < distance:\n                distance = δ\n", "            if δ > distance or i == 0:\n                distance = δ\n", ["C12"])
+mut("c12-sccs-max-distance", "diagnostics.py", "            if δ < distance:\n                distance = δ\n", "            if δ > distance or i == 0:\n                distance = δ\n", ["C12"], expect="silent",
+    note="picks another (worse) hexagonal permutation, but consistently in every frame: none of the clauses of C12 pins the choice -> property-preserving")
 mut("c12-eigvec-row-column", "diagnostics.py", "                dot_eigvects = np.dot(eigv_dij[:, i], eigv_vij[:, j])\n                angle_eigvects = smallest_angle(eigv_dij[:, i], eigv_vij[:, j])",
     "                dot_eigvects = np.dot(eigv_dij[i, :], eigv_vij[:, j])\n                angle_eigvects = smallest_angle(eigv_dij[i, :], eigv_vij[:, j])", ["C12"], note="invisible on axis-aligned input")
 mut("c12-shear-modulus-15", "diagnostics.py", "        G = (np.trace(stiffness_deviat) - 3 * K) / 10  # Shear modulus", "        G = (np.trace(stiffness_deviat) - 3 * K) / 15  # Shear modulus", ["C12"])
@@ -204,14 +206,15 @@ mut("c16-revert-F8", "io.py", "        if isinstance(value, str):\n            r
 mut("c16-revert-F9", "io.py", "            if line == \"---\\n\" and not yaml_done:", "            if line == \"---\\n\":", ["C16"])
 mut("c16-fill-not-substituted", "io.py", "                        elif d == t(f):\n                            row.append(schema[\"missing\"])", "                        elif False:\n                            row.append(schema[\"missing\"])", ["C16"],
     note="cells equal to a float/complex fill are written as values, not as the missing marker (invisible to the round trip; caught by the file-content oracle)")
-mut("c16-bool-fix-wrong", "io.py", "                    if isinstance(t, bool):\n                        row.append(d)", "                    if t is bool:\n                        row.append(int(d))", ["C16"], expect="silent",
-    note="property-preserving: booleans written as 0/1 parse back to the same values")
+mut("c16-bool-fix-wrong", "io.py", "                    if isinstance(t, bool):\n                        row.append(d)", "                    if t is bool:\n                        row.append(int(d))", ["C16"],
+    note="booleans written as 0/1: collide with missing markers '0'/'1' that the representable domain allows")
 mut("c16-double-lineterminator", "io.py", "                stream, delimiter=schema[\"delimiter\"], lineterminator=os.linesep\n", "                stream, delimiter=schema[\"delimiter\"], lineterminator=os.linesep * 2\n", ["C16"], expect="silent",
     note="property-preserving: empty lines are skipped by the reader")
-mut("c16-numeric-without-fill-accepted", "io.py", "            _log.error(\"SCSV field of type '%s' requires a fill value\", field[\"type\"])\n            return False", "            _log.error(\"SCSV field of type '%s' requires a fill value\", field[\"type\"])", ["C16"])
+mut("c16-numeric-without-fill-accepted", "io.py", "            _log.error(\"SCSV field of type '%s' requires a fill value\", field[\"type\"])\n            return False", "            _log.error(\"SCSV field of type '%s' requires a fill value\", field[\"type\"])", ["C16"], expect="silent",
+    note="still refused with SCSVError further down (typed fill of the default '' cannot be built): behaviour preserved")
 mut("c16-strict-removed", "io.py", "                for i, (d, t, f) in enumerate(zip(col, types, fills, strict=True)):", "                for i, (d, t, f) in enumerate(zip(col, types, fills)):", ["C16"], note="wrong column count accepted")
-mut("c16-nan-fill-lost", "io.py", "                        if np.isnan(d) and np.isnan(t(f)):\n                            row.append(schema[\"missing\"])\n                        elif", "                        if False:\n                            row.append(schema[\"missing\"])\n                        elif", ["C16"], expect="silent",
-    note="NaN cells written as 'nan' instead of the missing marker read back as NaN all the same")
+mut("c16-nan-fill-lost", "io.py", "                        if np.isnan(d) and np.isnan(t(f)):\n                            row.append(schema[\"missing\"])\n                        elif", "                        if False:\n                            row.append(schema[\"missing\"])\n                        elif", ["C16"],
+    note="NaN cells under a NaN fill written as 'nan' instead of the missing marker: invisible to the round trip, caught by the file-content oracle")
 mut("c16-strip-removed-on-read", "io.py", "    if data.strip() == missingstr:", "    if data == missingstr:", ["C16"], expect="silent", note="cells have no surrounding whitespace in the representable domain")
 mut("c16-revert-F15", "io.py", "        if fillval == \"NaN\" and func is not str:", "        if fillval == \"NaN\":", ["C16"])
 mut("c16-revert-F16", "io.py", "            skipinitialspace=schema[\"delimiter\"] != \" \",", "            skipinitialspace=True,", ["C16"])
